@@ -102,7 +102,8 @@ def run_case(ctx, rng, index, casedir):
     size = rng.choice(["small", "small", "medium"]) if ctx.tier == "quick" else rng.choice(["small", "medium", "medium", "large"])
     g = rgfa.gen_rgfa(rng, size=size)
     gz = rng.random() < 0.25
-    gpath = g.write(os.path.join(casedir, vary_name(rng, "g.gfa") + (".gz" if gz else "")), rng=rng, shuffle=rng.random() < 0.5)
+    gpath = g.write(os.path.join(casedir, vary_name(rng, "g.gfa") + (".gz" if gz else "")), rng=rng, shuffle=rng.random() < 0.5,
+                    with_seq=rng.random() >= 0.2)  # an rGFA without sequences ('*', lengths in LN) is enough to convert
     coords = rgaf.Coords(g)
     M.CTX["coords"] = coords
     nrec = rng.randint(8, 30)
